@@ -3,7 +3,7 @@ import vlib, common
 RULE = ("event sequences of 1..30 (quick) / ..130 distinct events with crafted shared prefixes, each inserted as single adds and under three random groupings into Add/AddBulk "
         "(one with few large bulks), two of them with close/reopen of the balloon at random call boundaries incl. before the first insert; every history digest and every "
         "call-end hyper digest compared across plans (Go vs Go) and every snapshot compared with the Coq construction (Go vs model); plus the balloon and history runs; "
-        "hyperb: the hyper tree alone (Add/AddBulk with crafted shared prefixes, existing keys, duplicates inside a bulk, reopen) - after every call the root hash, the whole HyperTable and HyperCacheTable and the cached batches on the paths of all keys compared slot by slot with the batch-level Coq model (Hyper/HyperBatch.v). "
+        "hyperb: the hyper tree alone (Add/AddBulk with crafted shared prefixes, existing keys, duplicates inside a bulk, reopen) - after every call the root hash, the whole HyperTable and HyperCacheTable and the cached batches on the paths of all keys compared slot by slot with the batch-level Coq model (Hyper/HyperBatch.v), and three searches per call (value and audit path). "
         "distinct = (case, plan, call); non-trivial = bulk of >1 events or followed by a reopen")
 
 
@@ -32,6 +32,6 @@ def run(v, tier, seed, replay):
                     dict(kind="correspondence", theorem="C04_snapshots_canonical", mismatches=mism_all, seed=seed, tier=tier), no_input=False)
     v.coverage["trusted_base"] = vlib.TRUSTED_COMMON + [
         "no hypothesis on the hash function",
-        "history insertion (pruneToInsert, insert visitor, write cache as an unbounded overlay, mutations) is modelled and proved to compute the spec root; the hyper batch/cache/store code is modelled (Hyper/HyperBatch.v: batches, shortcut push-down, cache/tiles/store writes, cache rebuild) and compared with the Go code table by table and with the spec construction on every snapshot; that the batch-level model computes the spec root is proved (C04_hyper_batches_compute_the_published_root) for the insertion path; the cache rebuild on reopen and the persisted tiles are compared only",
+        "history insertion (pruneToInsert, insert visitor, write cache as an unbounded overlay, mutations) is modelled and proved to compute the spec root; the hyper batch/cache/store code is modelled (Hyper/HyperBatch.v: batches, shortcut push-down, cache/tiles/store writes, cache rebuild) and compared with the Go code table by table and with the spec construction on every snapshot; that the batch-level model computes the spec root is proved (C04_hyper_batches_compute_the_published_root); search and cache rebuild from the persisted tiles likewise (C01_hyper_batch_search_is_the_published_search, C08_hyper_tree_recreation_invisible)",
         "restarts are not a model transition: the model has no volatile state, so 'restart is invisible' is checked by comparing Go runs with reopen against the model run without"]
     v.assumptions = ["events distinct for the grouping-independence of the hyper digest (as the property states)", "LRU write cache (300) never evicts an unpersisted node that is still needed"]
